@@ -65,7 +65,7 @@ def lean_drise(ctx, preds, refs, ip, ic):
     return out
 
 
-def seg_fixture(rng, n=2, h=3, w=4, c=2):
+def seg_fixture(rng, n=2, h=3, w=4, c=2, signed=False):
     pred = (rng.integers(0, 9, size=(n, h, w, c)) / 8.0).astype(np.float32)
     t = np.zeros((n, h, w, c), np.float32)
     for i in range(n):
@@ -77,6 +77,11 @@ def seg_fixture(rng, n=2, h=3, w=4, c=2):
         if e == f:
             f = min(w, e + 1); e = f - 1
         t[i, a:b, e:f, ch] = 1.0
+        if signed and rng.random() < 0.7:
+            # documented border / difference masks: entries in {-1, 0, +1}
+            t[i, a:b, e:e + 1, ch] = -1.0
+            if h > 1:
+                t[i, (a - 1) % h, e:f, (ch + 1) % c] = -1.0
     return pred, t
 
 
@@ -203,17 +208,22 @@ def run_opvalue(ctx, d):
                            rtol=2e-4, atol=1e-5)
         ctx.count("opvalue", "detection")
     else:
-        pred, t = seg_fixture(rng, n=d["n"], h=d["h"], w=d["w"], c=d["c"])
+        signed = bool(d.get("signed"))
+        pred, t = seg_fixture(rng, n=d["n"], h=d["h"], w=d["w"], c=d["c"], signed=signed)
         x = tf.zeros((d["n"], 2, 2, 1))
         ok, v = ctx.impl_call(d, lambda: np.asarray(get_operator("semantic segmentation")(lambda _x: tf.constant(pred), x, tf.constant(t))))
         if ok:
-            # zone mean computed independently (property statement) and by the Lean model
-            zone = [float(pred[i][t[i] == 1].mean()) for i in range(d["n"])]
+            # documented score sum(pred * t) / #{t != 0}: by the Lean model, and independently (= the zone mean for 0/1 masks)
             seg = [ctx.driver.call({"op": "seg_score", "pred": enc(pred[i].reshape(-1)), "t": enc(t[i].reshape(-1))})
                    for i in range(d["n"])]
+            doc = [float((pred[i].astype(np.float64) * t[i]).sum() / np.count_nonzero(t[i])) for i in range(d["n"])]
             ctx.check_corr("seg_model", v, seg, d, rtol=1e-5, atol=1e-6)
-            ctx.check_prop("segmentation-zone-mean", bool(np.allclose(v, zone, rtol=1e-5, atol=1e-6)), d,
-                           {"impl": v.tolist(), "zone_mean": zone})
+            ctx.check_prop("segmentation-zone-mean", bool(np.allclose(v, doc, rtol=1e-5, atol=1e-6)), d,
+                           {"impl": v.tolist(), "documented": doc, "signed_targets": signed})
+            if not signed:
+                zone = [float(pred[i][t[i] == 1].mean()) for i in range(d["n"])]
+                ctx.check_prop("segmentation-zone-mean", bool(np.allclose(v, zone, rtol=1e-5, atol=1e-6)), d,
+                               {"impl": v.tolist(), "zone_mean": zone})
         ctx.count("opvalue", "segmentation")
 
 
@@ -377,7 +387,8 @@ def gen_cases(ctx):
                       "npred": int(rng.integers(1, 7)), "nref": int(rng.integers(1, 4)), "n": int(rng.integers(1, 4)),
                       "single_vector": bool(rng.random() < 0.3), "case_seed": int(rng.integers(1 << 31))})
         cases.append({"type": "opvalue", "family": "segmentation", "n": int(rng.integers(1, 4)), "h": int(rng.integers(1, 6)),
-                      "w": int(rng.integers(1, 6)), "c": int(rng.integers(1, 4)), "case_seed": int(rng.integers(1 << 31))})
+                      "w": int(rng.integers(1, 6)), "c": int(rng.integers(1, 4)), "signed": bool(rng.random() < 0.5),
+                      "case_seed": int(rng.integers(1 << 31))})
     wbn = list(wb_classes_names())
     refs = [{"by": "name", "which": 1}, {"by": "neg", "which": 1}, {"by": "index", "which": 1}, {"by": "name", "which": 0},
             {"by": "neg", "which": 0}]
